@@ -10,3 +10,26 @@ package storage
 //@   crash_invariant state-file-old-or-new [C18]: fs(s.filename) == old(fs(s.filename)) || fs(s.filename) == fs_written
 //@   ensures saved [C18]: result == nil ==> fs(s.filename) == fs_written
 //@   ensures failed-keeps-a-complete-file [C18]: result != nil ==> fs(s.filename) == old(fs(s.filename)) || fs(s.filename) == fs_written
+
+// ---- router records are filed under the address they describe (C07) ----------------------------------
+// The identity (address, hash, key) of a stored router never changes after the record was created.
+//@ type StoredRouter
+//@   frozen Address by state.State.AddRouter
+
+// (the routers map is protected by routersLock everywhere except in JSONFileStorage.Stop, which runs after every
+// module using the storage has stopped; the lock discipline is therefore not claimed here)
+// Records enter the storage through SaveRouter (verified identities only) or from the local state file, which is
+// trusted: NewJSONFileStorage is not under contract and the invariant is assumed for what it loads.
+//@ type MemStorage
+//@   invariant maps [C13]: self.routers != nil
+//@   invariant routers-by-address [C07]: forall ip netip.Addr :: has(self.routers, ip) ==> (self.routers[ip] != nil ==> self.routers[ip].Address != nil && self.routers[ip].Address.IP == ip && self.routers[ip].Address.verified)
+
+// Every implementation of the storage interface returns the record filed under the requested address.
+//@ func RouterStorage.GetRouter
+//@   modifies any("F|storage.")
+//@   ensures record-of-that-address [C07]: result1 == nil ==> result0 != nil && result0.Address != nil && result0.Address.IP == arg0 && result0.Address.verified
+
+//@ func MemStorage.GetRouter
+//@   ensures found [C07]: result1 == nil ==> result0 != nil
+//@ func MemStorage.SaveRouter
+//@   requires verified-records-only [C01,C07]: info != nil && info.Address != nil && info.Address.verified
